@@ -10,13 +10,16 @@ chain (C02: the stop does finish, the workers are gone from the kernel).  Part 1
 namespace Circus.Core
 
 /-- nothing armed or pending, no process doomed, every process a child of the daemon (workers have
-    no children of their own), pid 0 is nobody -/
+    no children of their own), pid 0 is nobody, and the daemon is permitted to signal every process (no worker
+    runs under another uid: no `kill` of the daemon is refused with EPERM — the run-level theorems of this file
+    and of StopRunG are about workers the daemon *can* signal) -/
 structure Kernel.Base (k : Kernel) : Prop where
   armed : k.armed = []
   faults : k.faults = []
   nodoom : ∀ p ∈ k.procs, p.doom = none
   daemonKid : ∀ p ∈ k.procs, p.ppid = some 0
   pidpos : ∀ p ∈ k.procs, p.pid ≠ 0
+  signalable : ∀ p ∈ k.procs, p.behav.eperm = false
 
 namespace Kernel.Base
 
@@ -24,18 +27,18 @@ theorem calm {k : Kernel} (h : k.Base) : k.Calm :=
   ⟨h.armed, fun p hp _ d st hd => by rw [h.nodoom p hp] at hd; cases hd⟩
 
 theorem bump {k : Kernel} (h : k.Base) (n : Nat) : (k.bump n).Base :=
-  ⟨h.armed, h.faults, h.nodoom, h.daemonKid, h.pidpos⟩
+  ⟨h.armed, h.faults, h.nodoom, h.daemonKid, h.pidpos, h.signalable⟩
 
 theorem tick {k : Kernel} (h : k.Base) : k.tick = k.bump 1 := Kernel.tick_calm k h.calm
 
 theorem beginStep {k : Kernel} (h : k.Base) : k.beginStep.Base :=
-  ⟨h.faults, rfl, h.nodoom, h.daemonKid, h.pidpos⟩
+  ⟨h.faults, rfl, h.nodoom, h.daemonKid, h.pidpos, h.signalable⟩
 
 theorem setNow {k : Kernel} (h : k.Base) (t : Nat) : ({ k with now := t } : Kernel).resolve = { k with now := t } :=
-  Kernel.resolve_calm _ (calm ⟨h.armed, h.faults, h.nodoom, h.daemonKid, h.pidpos⟩)
+  Kernel.resolve_calm _ (calm ⟨h.armed, h.faults, h.nodoom, h.daemonKid, h.pidpos, h.signalable⟩)
 
 theorem setNow_base {k : Kernel} (h : k.Base) (t : Nat) : ({ k with now := t } : Kernel).Base :=
-  ⟨h.armed, h.faults, h.nodoom, h.daemonKid, h.pidpos⟩
+  ⟨h.armed, h.faults, h.nodoom, h.daemonKid, h.pidpos, h.signalable⟩
 
 end Kernel.Base
 
@@ -136,6 +139,19 @@ theorem Kernel.find_pid {k : Kernel} {pid : Nat} {p : KProc} (h : k.find pid = s
   unfold Kernel.find at h
   simpa using List.find?_some h
 
+/-- in a kernel whose processes the daemon may all signal, its own `kill` is the plain one (never refused) -/
+theorem Kernel.Base.killD {k : Kernel} (hb : k.Base) (pid sig : Nat) :
+    k.killD pid sig = ((k.kill pid sig).1, (k.kill pid sig).2, false) := by
+  have hd : k.tick.denies pid = false := by
+    rw [hb.tick]
+    unfold Kernel.denies
+    rw [Kernel.bump_find]
+    cases hf : k.find pid with
+    | none => rfl
+    | some p => simp [hb.signalable p (Kernel.find_mem hf)]
+  unfold Kernel.killD
+  rw [if_neg (by rw [hd]; simp)]
+
 /-- a signal other than SIGKILL leaves a stubborn worker alone -/
 theorem Kernel.kill_ignored {k : Kernel} (hb : k.Base) {pid : Nat} (hs : k.Stub pid) {sig : Nat} (hsig : sig ≠ 9) :
     k.kill pid sig = (k.bump 1, .run) := by
@@ -214,13 +230,13 @@ theorem Kernel.Stub.pid_ne_zero {k : Kernel} (hb : k.Base) {pid : Nat} (hs : k.S
 
 theorem Kernel.sigkilled_base {k : Kernel} (hb : k.Base) {pid : Nat} (hpid : pid ≠ 0) : (k.sigkilled pid).Base := by
   have hp := Kernel.sigkilled_procs hb pid hpid
-  refine ⟨hb.armed, hb.faults, ?_, ?_, ?_⟩ <;>
+  refine ⟨hb.armed, hb.faults, ?_, ?_, ?_, ?_⟩ <;>
   · intro p hpm
     rw [hp] at hpm
     obtain ⟨q, hq, rfl⟩ := List.mem_map.mp hpm
     split
-    · first | rfl | exact hb.daemonKid q hq | exact hb.pidpos q hq
-    · first | exact hb.nodoom q hq | exact hb.daemonKid q hq | exact hb.pidpos q hq
+    · first | rfl | exact hb.daemonKid q hq | exact hb.pidpos q hq | exact hb.signalable q hq
+    · first | exact hb.nodoom q hq | exact hb.daemonKid q hq | exact hb.pidpos q hq | exact hb.signalable q hq
 
 theorem Kernel.sigkilled_find {k : Kernel} (hb : k.Base) {pid : Nat} (hpid : pid ≠ 0) (q : Nat) :
     (k.sigkilled pid).find q =
@@ -249,13 +265,13 @@ theorem Kernel.waitpid_gone {k : Kernel} (hb : k.Base) {pid : Nat} {p : KProc} (
   simp
 
 theorem Kernel.reaped_base {k : Kernel} (hb : k.Base) (pid : Nat) : (k.reaped pid).Base := by
-  refine ⟨hb.armed, hb.faults, ?_, ?_, ?_⟩ <;>
+  refine ⟨hb.armed, hb.faults, ?_, ?_, ?_, ?_⟩ <;>
   · intro p hpm
     simp only [Kernel.reaped, Kernel.upd, Kernel.bump] at hpm
     obtain ⟨q, hq, rfl⟩ := List.mem_map.mp hpm
     split
-    · first | exact hb.nodoom q hq | exact hb.daemonKid q hq | exact hb.pidpos q hq
-    · first | exact hb.nodoom q hq | exact hb.daemonKid q hq | exact hb.pidpos q hq
+    · first | exact hb.nodoom q hq | exact hb.daemonKid q hq | exact hb.pidpos q hq | exact hb.signalable q hq
+    · first | exact hb.nodoom q hq | exact hb.daemonKid q hq | exact hb.pidpos q hq | exact hb.signalable q hq
 
 theorem Kernel.reaped_find (k : Kernel) (pid q : Nat) :
     (k.reaped pid).find q = (k.find q).map (fun p => if p.pid = pid then { p with st := .gone } else p) :=
@@ -324,7 +340,7 @@ theorem emit_sig (pid sig : Nat) (st : PState) (via : String) (s : State) (hb : 
 theorem sendSignal_ignored (u pid : Nat) (w : Watcher) (s : State) (hws : s.ws = [w]) (hw : SOk u w)
     (hb : s.blocked = false) (hk : s.k.Base) (hs : s.k.Stub pid) (hp : pid ∈ w.pids) :
     sendSignal u pid w.stopSignal s =
-      (true, { s with k := s.k.bump 1, log := s.log ++ [Obs.sig pid w.stopSignal .run ""] }) := by
+      (.ok, { s with k := s.k.bump 1, log := s.log ++ [Obs.sig pid w.stopSignal .run ""] }) := by
   unfold sendSignal
   simp only [bind]
   rw [getW_single u w s hws hw.uid]
@@ -332,11 +348,11 @@ theorem sendSignal_ignored (u pid : Nat) (w : Watcher) (s : State) (hws : s.ws =
   erw [if_pos hc]
   rw [callHook_nohook u "before_signal" w s hws hw.uid hw.hooks]
   erw [if_neg (by simp)]
-  have hkk : kKill pid w.stopSignal "" s = (true, { s with k := s.k.bump 1, log := s.log ++ [Obs.sig pid w.stopSignal .run ""] }) := by
+  have hkk : kKill pid w.stopSignal "" s = (.ok, { s with k := s.k.bump 1, log := s.log ++ [Obs.sig pid w.stopSignal .run ""] }) := by
     unfold kKill
-    simp only [bind, runK, Kernel.kill_ignored hk hs hw.sigNe9]
+    simp only [bind, runK, hk.killD, Kernel.kill_ignored hk hs hw.sigNe9, Bool.false_eq_true, if_false]
     rw [emit_sig _ _ _ _ { s with k := s.k.bump 1 } hb]
-    simp [pure]
+    simp [pure, SigRes.of]
   rw [hkk]
   erw [if_pos rfl]
   simp only
@@ -383,7 +399,7 @@ theorem getW_mk (u : Nat) (hu : w.uid = u) :
 
 theorem sendSignal_ignored_mk (u pid : Nat) (hw : SOk u w) (hk : k.Base) (hs : k.Stub pid) (hp : pid ∈ w.pids) :
     sendSignal u pid w.stopSignal ⟨k, a, objs, [w], frames, sleepers, tops, ready, dv, nid, log, false⟩ =
-      (true, ⟨k.bump 1, a, objs, [w], frames, sleepers, tops, ready, dv, nid, log ++ [Obs.sig pid w.stopSignal .run ""], false⟩) :=
+      (.ok, ⟨k.bump 1, a, objs, [w], frames, sleepers, tops, ready, dv, nid, log ++ [Obs.sig pid w.stopSignal .run ""], false⟩) :=
   sendSignal_ignored u pid w _ rfl hw rfl hk hs hp
 
 /-- `poll()` on a running worker -/
@@ -459,11 +475,11 @@ theorem kChildren_stub_mk (pid : Nat) (r : Bool) (hk : k.Base) (hs : k.Stub pid)
 /-- SIGKILL to a stubborn worker with latency 0: it is a zombie at once -/
 theorem sendSignal_kill9_mk (u pid : Nat) (hw : SOk u w) (hk : k.Base) (hs : k.Stub pid) (hp : pid ∈ w.pids) :
     sendSignal u pid 9 ⟨k, a, objs, [w], frames, sleepers, tops, ready, dv, nid, log, false⟩ =
-      (true, ⟨k.sigkilled pid, a, objs, [w], frames, sleepers, tops, ready, dv, nid, log ++ [Obs.sig pid 9 .run ""], false⟩) := by
+      (.ok, ⟨k.sigkilled pid, a, objs, [w], frames, sleepers, tops, ready, dv, nid, log ++ [Obs.sig pid 9 .run ""], false⟩) := by
   have hc : w.pids.contains pid = true := by simpa using hp
   have hkk : kKill pid 9 "" ⟨k, a, objs, [w], frames, sleepers, tops, ready, dv, nid, log, false⟩ =
-      (true, ⟨k.sigkilled pid, a, objs, [w], frames, sleepers, tops, ready, dv, nid, log ++ [Obs.sig pid 9 .run ""], false⟩) := by
-    simp [kKill, bind, runK, Kernel.kill9 hk hs, emit, modS, Obs.isRep, Obs.isEv, pure]
+      (.ok, ⟨k.sigkilled pid, a, objs, [w], frames, sleepers, tops, ready, dv, nid, log ++ [Obs.sig pid 9 .run ""], false⟩) := by
+    simp [kKill, bind, runK, hk.killD, Kernel.kill9 hk hs, emit, modS, Obs.isRep, Obs.isEv, pure, SigRes.of]
   simp [sendSignal, bind, getW, hw.uid, hp, callHook_mk, hw.hooks, hkk, pure]
 
 end mk2
@@ -472,15 +488,14 @@ theorem sendSignalProcess_kill9_mk (k : Kernel) (a : Arbiter) (objs : List PObj)
     (sleepers : List Sleeper) (tops : List TopFut) (ready : List Ready) (dv : List (Nat × Val)) (nid : Nat) (log : List Obs)
     (u pid : Nat) (hw : SOk u w) (hk : k.Base) (hs : k.Stub pid) (hp : pid ∈ w.pids) :
     sendSignalProcess u pid 9 true ⟨k, a, objs, [w], frames, sleepers, tops, ready, dv, nid, log, false⟩ =
-      ((), ⟨(k.bump 1).sigkilled pid, a, objs, [w], frames, sleepers, tops, ready, dv, nid,
+      (true, ⟨(k.bump 1).sigkilled pid, a, objs, [w], frames, sleepers, tops, ready, dv, nid,
         evlog a (log ++ [Obs.sig pid 9 .run ""]) w "kill" (some pid) "-", false⟩) := by
   have hs1 : (k.bump 1).Stub pid := hs
   have h1 := kChildren_stub_mk k a objs w frames sleepers tops ready dv nid log pid true hk hs
   have h2 := sendSignal_kill9_mk (k.bump 1) a objs w frames sleepers tops ready dv nid log u pid hw (hk.bump 1) hs1 hp
   unfold sendSignalProcess
   simp only [bind, h1, h2]
-  simp [notify_mk, hw.uid, pure]
-  rfl
+  simp [notify_mk, hw.uid, pure, signalKids]
 
 /-- `Process.stop()` on a zombie: `poll()` collects it (status 9), nothing to terminate -/
 theorem objStop_reap_mk (k : Kernel) (a : Arbiter) (objs : List PObj) (w : Watcher) (frames : List Frame)
@@ -1917,13 +1932,13 @@ theorem Kernel.termed_procs {k : Kernel} (hb : k.Base) (pid sig : Nat) (hpid : p
 
 theorem Kernel.termed_base {k : Kernel} (hb : k.Base) {pid : Nat} (sig : Nat) (hpid : pid ≠ 0) : (k.termed pid sig).Base := by
   have hp := Kernel.termed_procs hb pid sig hpid
-  refine ⟨hb.armed, hb.faults, ?_, ?_, ?_⟩ <;>
+  refine ⟨hb.armed, hb.faults, ?_, ?_, ?_, ?_⟩ <;>
   · intro p hpm
     rw [hp] at hpm
     obtain ⟨q, hq, rfl⟩ := List.mem_map.mp hpm
     split
-    · first | rfl | exact hb.daemonKid q hq | exact hb.pidpos q hq
-    · first | exact hb.nodoom q hq | exact hb.daemonKid q hq | exact hb.pidpos q hq
+    · first | rfl | exact hb.daemonKid q hq | exact hb.pidpos q hq | exact hb.signalable q hq
+    · first | exact hb.nodoom q hq | exact hb.daemonKid q hq | exact hb.pidpos q hq | exact hb.signalable q hq
 
 theorem Kernel.termed_find {k : Kernel} (hb : k.Base) {pid : Nat} (sig : Nat) (hpid : pid ≠ 0) (q : Nat) :
     (k.termed pid sig).find q =
@@ -1982,12 +1997,13 @@ variable (k : Kernel) (a : Arbiter) (objs : List PObj) (w : Watcher) (frames : L
 /-- the stop signal to an obedient worker: it is a zombie at once -/
 theorem sendSignal_term_mk (u pid : Nat) (hw : TOk u w) (hk : k.Base) (hs : k.Obed pid) (hp : pid ∈ w.pids) :
     sendSignal u pid w.stopSignal ⟨k, a, objs, [w], frames, sleepers, tops, ready, dv, nid, log, false⟩ =
-      (true, ⟨k.termed pid w.stopSignal, a, objs, [w], frames, sleepers, tops, ready, dv, nid,
+      (.ok, ⟨k.termed pid w.stopSignal, a, objs, [w], frames, sleepers, tops, ready, dv, nid,
         log ++ [Obs.sig pid w.stopSignal .run ""], false⟩) := by
   have hkk : kKill pid w.stopSignal "" ⟨k, a, objs, [w], frames, sleepers, tops, ready, dv, nid, log, false⟩ =
-      (true, ⟨k.termed pid w.stopSignal, a, objs, [w], frames, sleepers, tops, ready, dv, nid,
+      (.ok, ⟨k.termed pid w.stopSignal, a, objs, [w], frames, sleepers, tops, ready, dv, nid,
         log ++ [Obs.sig pid w.stopSignal .run ""], false⟩) := by
-    simp [kKill, bind, runK, Kernel.kill_term hk hs hw.ok.sigNe9 hw.ne0 hw.heard, emit, modS, Obs.isRep, Obs.isEv, pure]
+    simp [kKill, bind, runK, hk.killD, Kernel.kill_term hk hs hw.ok.sigNe9 hw.ne0 hw.heard, emit, modS, Obs.isRep, Obs.isEv, pure,
+      SigRes.of]
   simp [sendSignal, bind, getW, hw.ok.uid, hp, callHook_mk, hw.ok.hooks, hkk, pure]
 
 /-- `poll()` on a zombie: collected, the exit code cached -/
@@ -2063,11 +2079,11 @@ theorem killProcess_obed (rec : Rec) (u pid : Nat) (wt : Waiter) (w : Watcher) (
     (log ++ [Obs.sig pid w.stopSignal .run ""]) u hw.ok.uid "kill" (some pid) "-"
   unfold killProcess
   simp only [bind, hg, getO, ho, Option.getD_some, hst, hw.ok.stopChildren, Option.getD_none, Bool.false_eq_true, ↓reduceIte, h1,
-    hn, pure, Bool.not_true, setObjStopping, modO, modS]
+    hn, pure, Bool.not_true, setObjStopping, modO, modS, reduceCtorEq]
   unfold killLoop
   simp only [bind, hpolls, ↓reduceIte, h2, Bool.false_eq_true]
   unfold killFinish
-  simp only [bind, Bool.false_eq_true, ↓reduceIte, setObjStopping, modO, modS, hoo3, pure]
+  simp only [bind, Bool.false_eq_true, ↓reduceIte, setObjStopping, modO, modS, hoo3, pure, Bool.not_true]
   unfold objStop
   simp only [bind, h3, Bool.false_eq_true, ↓reduceIte, pure]
   rfl
